@@ -216,6 +216,18 @@ def run(ctx, rep):
     literal_kinds(F, rep)
     only_table_operators_are_folded(F, rep)
     short_circuit_is_respected(F, rep)
+    # the folder computes on the exact decimal text and refuses what does not fit (a shift amount beyond u32); the interpreter agrees on *failing* only
+    # if it does not narrow an operand before it operates (`amount as u32` turns B4294967300 into 4): C05's inventory of casts in the operator impls
+    from props import C05 as _c05
+    from core import Report as _Report5
+    tmp5 = _Report5("C05", rep.tier)
+    _c05.run(ctx, tmp5)
+    k5 = 0
+    for o in tmp5.obligations:
+        if o["key"].startswith("C05.widening"):
+            k5 += 1
+            rep.ob("C06.runtime-narrowing", o["instance"], o["status"], o["detail"], o["where"], key=o["key"].replace("C05.widening", "C06.runtime-narrowing", 1), fn=o.get("fn"))
+    rep.floor("C06.runtime-narrowing casts in the operator implementations", k5, 5)
 
 
 def _leaves(fn, local, through, depth=0, seen=None):
